@@ -213,13 +213,18 @@ def _r1_function(ctx: Ctx, d: Driver, R: str, f: FuncInfo, slots: tp.Sequence[st
             verdicts = []
             for s in states:
                 if only_local:
+                    # an exit that was taken before this store (an early return of a guard clause) never held this allocation in the slot
+                    cur = s.env.get(tgt)
+                    ids = {x for x in raw if isinstance(x, tuple) and x[0] == 'A'}
+                    if s is not ev.state and ids and not (ids & {x for x in (cur or ()) if isinstance(x, tuple) and x[0] == 'A'}):
+                        continue
                     verdicts.append(_classify(s.resolve(raw)))
                 else:
                     v = s.env.get(tgt)
                     if v is not None:
                         verdicts.append(_classify(s.resolve(v)))
             if not verdicts:
-                verdicts = [_classify(ev.value)]
+                verdicts = [_classify(ev.state.resolve(raw) if only_local else ev.value)]
             kinds = {k for k, _ in verdicts}
             key = f'store:{tgt}={norm(ev.node.value)[:80] if hasattr(ev.node, "value") else ""}'
             if kinds <= {'frozen', 'notarray'}:
